@@ -17,7 +17,7 @@ RULES = {
     'A2': ownership.rule_A2, 'A5': ownership.rule_A5, 'A6': ownership.rule_A6, 'A7': ownership.rule_A7, 'A8': ownership.rule_A8,
     'L': contracts.rule_L, 'K': contracts.rule_K, 'E1': contracts.rule_E1, 'E2': contracts.rule_E2, 'E3': contracts.rule_E3,
     'E6': contracts.rule_E6, 'E7': contracts.rule_E7, 'D2': contracts.rule_D2, 'E9': contracts.rule_E9, 'E4': contracts.rule_E4,
-    'E10': contracts.rule_E10, 'E11': contracts.rule_E11, 'BYTEWIN': contracts.rule_BYTEWIN, 'SIB': contracts.rule_SIB, 'SGN0': contracts.rule_SGN0, 'IDEM': contracts.rule_IDEM, 'PAD': contracts.rule_PAD, 'OPT': contracts.rule_OPT, 'OPTDEP': contracts.rule_OPTDEP, 'EQ1': contracts.rule_EQ1, 'ITER1': contracts.rule_ITER1,
+    'E10': contracts.rule_E10, 'E11': contracts.rule_E11, 'BYTEWIN': contracts.rule_BYTEWIN, 'SIB': contracts.rule_SIB, 'SGN0': contracts.rule_SGN0, 'IDEM': contracts.rule_IDEM, 'PAD': contracts.rule_PAD, 'RND': contracts.rule_RND, 'OPT': contracts.rule_OPT, 'OPTDEP': contracts.rule_OPTDEP, 'EQ1': contracts.rule_EQ1, 'ITER1': contracts.rule_ITER1,
     'C': stream.rule_C, 'POSW': stream.rule_POSW, 'B1': stream.rule_B1, 'POST': stream.rule_POST, 'RB': stream.rule_RB, 'NOMOVE': stream.rule_NOMOVE, 'SELFOP': stream.rule_SELFOP,
     'I': dims.rule_I, 'B3': dims.rule_B3, 'N2a': dims.rule_N2a, 'IDX': dims.rule_IDX, 'TY1': dims.rule_TY1, 'XDT': dims.rule_XDT, 'SCALE': dims.rule_SCALE, 'TRAIL': dims.rule_TRAIL,
     'B2': mutate.rule_B2, 'WB': mutate.rule_WB, 'N1': mutate.rule_N1, 'N2': mutate.rule_N2, 'N5': mutate.rule_N5, 'D5': mutate.rule_D5, 'RNG': mutate.rule_RNG, 'IDX1': mutate.rule_IDX1, 'SLN': mutate.rule_SLN,
@@ -100,7 +100,7 @@ _p('C09', ['F1', 'F2', 'F3', 'F4', 'F5', 'G1', 'N4', 'A1', 'A4', 'MEMO'],
                "of the lsb0/msb0 tables in Options.set_lsb0.",
    floors={'F1': 8, 'G1': 13})
 
-_p('C11', ['H5a', 'H5b', 'H5c', 'H2', 'SCALE', 'SGN0'],
+_p('C11', ['H5a', 'H5b', 'H5c', 'H2', 'SCALE', 'SGN0', 'RND'],
    decided=["every code of p3binary8, p4binary8, e5m2/e4m3 (both overflow modes), e3m2, e2m3, e2m1 decodes to the value "
             "its format defines (sign, exponent, mantissa, subnormals, zeros, infinities, NaNs): all entries of the 9 "
             "decode tables against an exact model",
@@ -108,7 +108,8 @@ _p('C11', ['H5a', 'H5b', 'H5c', 'H2', 'SCALE', 'SGN0'],
             "infinities and NaN mapped per format and mxfp_overflow mode: all 9 x 65536 entries of the encode tables",
             "the code selects and indexes the right table: byte order of the half-precision index, OverflowError "
             "handler and clamp constants (= codes of +-inf), table keys, bit widths, overflow-mode selection, NaN "
-            "rejection for formats without NaN, e8m0/mxint/bfloat constants, scale multiplies on decode and divides on encode"],
+            "rejection for formats without NaN, e8m0/mxint/bfloat constants, scale multiplies on decode and divides on encode",
+            'mxint rounds 64x to the nearest integer directly (round(), exact ties-to-even): no encoder rounds by adding or subtracting 0.5 and truncating, which rounds twice and mis-rounds inputs one ulp above a tie'],
    declined=["mxint's round-to-nearest-even of 64*f and bfloat truncation as numerical results for every float64",
              "float64 inputs between half-precision neighbours are covered only through the statement's own reduction "
              "to the IEEE half-precision rounding performed by struct.pack('>e') (trusted leaf)"],
